@@ -367,7 +367,15 @@ func (l *Linter) lintRestartStatement(stmt *ast.RestartStatement, ctx *context.C
 }
 
 func (l *Linter) lintEsiStatement(stmt *ast.EsiStatement, ctx *context.Context) types.Type {
-	// Nothing to lint because this statement is simply esi; and enabled in all subroutines.
+	// The statement is simply esi; and it takes effect in vcl_fetch only.
+	// https://developer.fastly.com/reference/vcl/statements/esi/
+	if ctx.Mode()&context.FETCH != ctx.Mode() {
+		l.Error(&LintError{
+			Severity: ERROR,
+			Token:    stmt.GetMeta().Token,
+			Message:  "esi statement is available in FETCH scope only",
+		})
+	}
 	return types.NeverType
 }
 
